@@ -164,6 +164,13 @@ func (a *AvailableCommands) Decode(c *proto.PacketContext, rd io.Reader) error {
 		wireNodes = append(wireNodes, wn)
 	}
 
+	// The child relation of a command tree has no cycles (only redirects may
+	// point back). A cyclic child graph would make brigodier merge nodes
+	// into themselves without end when the graph is assembled below.
+	if err = checkChildrenAcyclic(wireNodes); err != nil {
+		return err
+	}
+
 	var ok bool
 	queue := append([]*WireNode{}, wireNodes...) // copy
 	// Iterate over the deserialized nodes and attempt to form a graph.
@@ -204,6 +211,47 @@ func (a *AvailableCommands) Decode(c *proto.PacketContext, rd io.Reader) error {
 	a.RootNode, ok = built.(*brigodier.RootCommandNode)
 	if !ok {
 		return fmt.Errorf("built node type is not *RootCommandNode (%T)", built)
+	}
+	return nil
+}
+
+// checkChildrenAcyclic returns an error if a node is (transitively) its own child
+// or a child index is out of range.
+func checkChildrenAcyclic(wireNodes []*WireNode) error {
+	const (
+		unvisited = iota
+		onPath
+		done
+	)
+	state := make([]uint8, len(wireNodes))
+	type frame struct{ node, next int }
+	for start := range wireNodes {
+		if state[start] != unvisited {
+			continue
+		}
+		state[start] = onPath
+		stack := []frame{{node: start}}
+		for len(stack) != 0 {
+			top := &stack[len(stack)-1]
+			children := wireNodes[top.node].Children
+			if top.next == len(children) {
+				state[top.node] = done
+				stack = stack[:len(stack)-1]
+				continue
+			}
+			child := children[top.next]
+			top.next++
+			if child < 0 || child >= len(wireNodes) {
+				return fmt.Errorf("node points to non-existent index %d (max=%d)", child, len(wireNodes))
+			}
+			switch state[child] {
+			case onPath:
+				return fmt.Errorf("command node %d is its own descendant", child)
+			case unvisited:
+				state[child] = onPath
+				stack = append(stack, frame{node: child})
+			}
+		}
 	}
 	return nil
 }
